@@ -177,3 +177,17 @@ class C07(PropertyCheck):
             if o[0] == "S" and len(o[2]) > 0:
                 for j in range(len(o[2])):
                     yield Case(render(ops[:i] + [("S", o[1], o[2][:j] + o[2][j + 1:])] + ops[i + 1:]), case.stream)
+
+
+TB = ("Trusted: Coq 8.16.1 kernel (vm_compute, no native_compute), no axioms (Print Assumptions audited on every run), "
+      "ExtrOcamlBasic extraction + hand-written OCaml driver, the Rust harness and Python generators/oracles. ")
+
+MANIFEST = dict(
+    text="Theorems about an executable Gallina model of TextArchive's in-memory API (step laws, NoDup keys, lookup = last write, "
+         "keys in strict birth order, escape/unescape inverse on stored messages, store-back is the identity, dirty flag), all closed under "
+         "the global context; the model is tied to /repo on every run by running the extracted model and the real library on the same "
+         "histories (bounded-exhaustive + random) and comparing the full observable state after every call; an independent executable "
+         "statement of the property is evaluated on the implementation's outputs as oracle.",
+    note=TB + "Modelled, not verified: IndexMap, str::replace (A-std); strings as lists of scalar values.",
+    technique="Coq proof (induction over histories, refinement to ordered key list) + extracted-model differential check",
+    ref="DESIGN.md section 3 (C07)")
